@@ -318,8 +318,8 @@ func directiveArgAssertChecked(c *Ctx) {
 var errorsDroppedReviewed = map[string]string{
 	"(graphql.Omittable[T]).MarshalGQL→MarshalGQLContext":        "the value's own ContextMarshaler reports its error through the context it is given (graphql.AddError in the generated adapter); Omittable has no error result to hand it on",
 	"(graphql.Omittable[T]).MarshalGQLContext→MarshalGQLContext": "as above",
-	"graphql/handler.sendError→Marshal":                           "marshals a graphql.Response built from strings only; cannot fail",
-	"(*graphql/handler.Server).ServeHTTP→Marshal":                 "marshals a graphql.Response built from the presented error; its failure leaves an empty body on an already failing request",
+	"graphql/handler.sendError→Marshal":                          "marshals a graphql.Response built from strings only; cannot fail",
+	"(*graphql/handler.Server).ServeHTTP→Marshal":                "marshals a graphql.Response built from the presented error; its failure leaves an empty body on an already failing request",
 }
 
 func errorsNotDropped(c *Ctx) {
